@@ -578,6 +578,24 @@ let monitor_pair prop case obs =
        else if asker sa <> asker sb then "PASS (the asking provider itself is no longer included; the others are unchanged)"
        else if no_d sa "RES" <> no_d sb "RES" || no_d sa "LOG" <> no_d sb "LOG" then "FAIL asking for *Debugging changes the behaviour"
        else "PASS"
+     | ["PAIR"; "cacheperm"; pid] when prop = "C06" ->
+       (* sa: with the Cacheable mark, sb: without it *)
+       if ok sb && not (ok sa) then begin
+         (* the clause at stake: a provider whose inputs depend on a per-invocation value is never hoisted.
+            In the chain without the mark, did the provider receive a value produced per invocation? *)
+         let group_of p = List.fold_left (fun acc t -> match String.split_on_char ':' t with
+             | [q; cl; g; _] when q = p -> if cl = "8" then "init" else g | _ -> acc) "?" (sec "ORDER" sb) in
+         let args tok = (match String.index_opt tok '(', String.index_opt tok ')' with
+             | Some i, Some j when j > i + 1 -> String.split_on_char ',' (String.sub tok (i + 1) (j - i - 1))
+             | _ -> []) in
+         let per_invocation v = (match String.split_on_char '.' v with
+             | [_; prod; _] -> (match group_of prod with "0" | "3" | "4" -> true | _ -> false)
+             | _ -> false) in
+         let dep = List.exists (fun tok -> before '(' tok = "C" ^ pid && List.exists per_invocation (args tok)) (sec "LOG" sb) in
+         if dep then
+           "FAIL the chain binds without the Cacheable mark on provider " ^ pid ^ " but not with it, although the provider's inputs are per-invocation values (it must simply not be hoisted)"
+         else "PASS (the marked provider takes only static inputs: hoisting it is what the mark asks for)"
+       end else "PASS"
      | ["PAIR"; "refltwin"; _] when prop = "C20" ->
        if oa = ob then "PASS"
        else if ok sa <> ok sb then "FAIL supplying providers through the Reflective interfaces changes whether the chain binds"
